@@ -413,13 +413,13 @@ type stepRec struct {
 }
 
 type trace struct {
-	Steps   []stepRec
-	PanicOp *Op // the op that panicked (ends the case; no observation)
+	Steps    []stepRec
+	PanicOp  *Op // the op that panicked (ends the case; no observation)
 	Final    int
 	NoTerm   bool // the observation itself failed: no Coq term for this case
 	TableLen int
 	Sig      string
-	Detail  string
+	Detail   string
 }
 
 func (t *trace) ops() []Op {
